@@ -1456,3 +1456,38 @@ def rt_graph_totality(req):
 RT['graph_totality'] = rt_graph_totality
 for _i in range(3):
     RT['graph_totality_%d' % _i] = (lambda i: lambda req: rt_graph_totality(('rt:graph_totality', i)))(_i)
+
+
+def rt_nonlocal_intermediate(req):
+    """C05, last sentence ("captured via nonlocal"): a `nonlocal kwargs` two levels down, below an intermediate function that merely
+    READ `kwargs`, rebinds the wrapper's **kwargs all the same (Python binds `nonlocal` to the nearest scope that BINDS the name):
+    the callee's keyword parameters must not be advertised (recorded finding D97 on the unchanged tree)"""
+    import sigtools
+    from sigtools import signatures
+    from . import progs
+    problems = []
+    src = ('def inner(x, y, *, z): return x\n'
+           'def r4(a, *args, **kwargs):\n    def l1():\n        x = kwargs\n        def l2():\n            nonlocal kwargs\n            kwargs = {}\n        l2()\n    l1()\n'
+           '    return inner(*args, **kwargs)\n'
+           'def control(a, *args, **kwargs):\n    def l1():\n        def l2():\n            nonlocal kwargs\n            kwargs = {}\n        l2()\n    l1()\n'
+           '    return inner(*args, **kwargs)\n')
+    mod, fname = progs.load_module(src)
+    try:
+        with warnings.catch_warnings():
+            warnings.simplefilter('ignore')
+            for nm in ('control', 'r4'):
+                f = getattr(mod, nm)
+                sig = sigtools.signature(f)
+                if str(sig) == str(signatures.signature(f)):
+                    continue
+                adv = [n for n, p in sig.parameters.items() if n in ('x', 'y', 'z') and p.kind.name in ('POSITIONAL_OR_KEYWORD', 'KEYWORD_ONLY')]
+                r = _try(lambda: f(0, 1, 2, z=3))
+                if adv and r == ('raised', 'TypeError'):
+                    problems.append('nonlocal-through-intermediate-missed: %s rebinds **kwargs by `nonlocal` two levels down%s, yet sigtools.signature = %s advertises %s of the callee and the accepted call (0, 1, 2, z=3) raises TypeError' % (
+                        nm, ' below a function that merely read kwargs' if nm == 'r4' else '', sig, adv))
+    finally:
+        progs.unload(fname)
+    return ('ok', tuple(problems[:3]), 'nonlocal_intermediate')
+
+
+RT['nonlocal_intermediate'] = rt_nonlocal_intermediate
